@@ -82,6 +82,17 @@ def body():
     def add(variant, **kw):
         kw["id"] = len(lines) + 1
         lines.append(kw); meta.append(variant)
+        if kw["mode"] != "free" or variant == "asan":       # the same run over streaming objects (one multi-call object per thread, operation k = its k-th call)
+            k2 = dict(kw, work="stream", id=len(lines) + 1)
+            lines.append(k2); meta.append(variant)
+            if kw["mode"] != "seq":          # ... and with all threads holding objects of ONE kind under different keys: state hidden per kind shows here
+                nf = kw.pop("_nf", len(lines))
+                fam = nf % 10
+                for ln in ({"mode": "seq"}, {}):
+                    k3 = dict(kw, work="stream", fam=fam, id=len(lines) + 1, **ln)
+                    if ln:
+                        k3.pop("sched", None)
+                    lines.append(k3); meta.append(variant)
     # baselines: the same workloads run sequentially (threads one after another)
     shapes = sorted({(t, k) for t, k, _ in scheds} | {(2, 12), (4, 10), (8, 8), (16, 6)})
     for seed in seeds:
@@ -110,15 +121,15 @@ def body():
     base = {}
     for line, (evs, san, rc) in zip(lines, results):
         if line["mode"] == "seq":
-            base[(line["threads"], line["ops"], line["seed"])] = {(e["t"], e["k"]): e for e in evs if e["e"] == "Op"}
+            base[(line["threads"], line["ops"], line["seed"], line.get("work", "mixed"), line.get("fam", -1))] = {(e["t"], e["k"]): e for e in evs if e["e"] == "Op"}
     execs = []
     for line, variant, (evs, san, rc) in zip(lines, meta, results):
-        key = "c20:%s:%s:t%d:k%d:seed%d%s" % (variant, line["mode"], line["threads"], line["ops"], line["seed"], (":" + line["sched"].replace(",", "")) if "sched" in line else ":#%d" % line["id"])
+        key = "c20:%s:%s%s:t%d:k%d:seed%d%s" % (variant, line["mode"], ("-stream" + ("%d" % line["fam"] if "fam" in line else "")) if line.get("work") == "stream" else "", line["threads"], line["ops"], line["seed"], (":" + line["sched"].replace(",", "")) if "sched" in line else ":#%d" % line["id"])
         c.count(1, key)
         if san:
             c.violation(key + ":sanitizer", "sanitizer report / abnormal end (rc=%s) in a %s run: %s" % (rc, line["mode"], str(san)[:600]), {"line": line, "report": str(san)[:4000]})
             continue
-        b = base.get((line["threads"], line["ops"], line["seed"]), {})
+        b = base.get((line["threads"], line["ops"], line["seed"], line.get("work", "mixed"), line.get("fam", -1)), {})
         out = []
         for e in evs:
             e = dict(e)
@@ -127,7 +138,7 @@ def body():
             elif e["e"] == "Op":
                 be = b.get((e["t"], e["k"]))
                 e["expect"] = be["d"] if be else "?"
-                e["minones"] = MINONES[e["kind"]]
+                e["minones"] = MINONES.get(e["kind"], 1)         # streaming kinds: every call of the object returns 1
             out.append(e)
         out.append({"e": "Reset"})
         execs.append((key, out))
